@@ -31,7 +31,8 @@ def bounds(tier):
 
 def goals(tier):
     return ["feature-inherited", "feature-dropped-overlaps-discarded", "feature-touches-boundary-inside", "feature-crosses-boundary-by-one",
-            "origin-inside-feature", "minus-strand-inherited", "join-inherited", "vector-feature-inherited", "module-feature-inherited"]
+            "origin-inside-feature", "minus-strand-inherited", "join-inherited", "vector-feature-inherited", "module-feature-inherited",
+            "zero-length-feature-inherited"]
 
 
 # ---------------------------------------------------------------------------------------------
@@ -68,8 +69,9 @@ def retained(base, which):
 
 
 def canon(den):
-    if all(s in (None, 0) for _, s in den):
-        return tuple(sorted(den))
+    den = [tuple(d) for d in den]
+    if all(d[1] in (None, 0) for d in den):
+        return tuple(sorted(den, key=lambda d: (d[0], len(d))))
     return tuple(den)
 
 
@@ -110,9 +112,23 @@ def run_case(st, base, which, r, spelling, table, scn):
         return
     # product index q corresponds to P index (q - dd) mod N
     exp = {}
+    optional = set()
     for i, (typ, parts) in table:
         den = rm.denoted(parts, n)
-        inside = all(fs <= p < fs + flen for p, _ in den) and len(den) <= flen
+        if len(den) == 1 and len(den[0]) == 3:
+            # a zero-length feature marks the boundary in front of nucleotide p: inside the fragment when fs < p < fs+flen;
+            # exactly on an edge of the fragment either answer is admissible
+            p0, s0 = den[0][0], den[0][1]
+            rel = (p0 - fs) % n
+            st.evaluations += 1
+            if 0 < rel < flen:
+                exp["f%d" % i] = (typ, ((( off + rel) % N, s0, "^"),))
+                st.goals["zero-length-feature-inherited"] += 1
+                st.nontrivial += 1
+            elif rel in (0, flen):
+                optional.add("f%d" % i)
+            continue
+        inside = all(fs <= d[0] < fs + flen for d in den) and len(den) <= flen
         touch = False
         if inside:
             img = canon([((off + p - fs) % N, s) for p, s in den])
@@ -148,7 +164,7 @@ def run_case(st, base, which, r, spelling, table, scn):
             continue
         label = asm.qual1(f, "label")
         den = rm.denoted(snapshot.loc_parts(f.location), N)
-        img = canon([((q - dd) % N, s) for q, s in den])
+        img = canon([(((d[0] - dd) % N, d[1]) if len(d) == 2 else ((d[0] - dd) % N, d[1], "^")) for d in den])
         if label in got:
             st.violation("features", "feature-duplicated-in-product", dict(scn, feature=label), 1, 2)
         got[label] = (f.type, img, f.qualifiers)
@@ -159,12 +175,14 @@ def run_case(st, base, which, r, spelling, table, scn):
         gtyp, gimg, gq = got[label]
         if gimg != img:
             cause = "inherited-feature-denotes-other-nucleotides"
-            if sorted(p for p, _ in gimg) == sorted(p for p, _ in img):
+            if sorted(d[0] for d in gimg) == sorted(d[0] for d in img):
                 cause = "inherited-feature-strand-or-order-changed"
             st.violation("features", cause, dict(scn, feature=label, parts=dict(table)[int(label[1:])][1]), list(img)[:8], list(gimg)[:8])
         elif gtyp != typ or gq.get("note") != ["n-" + label, "second"] or gq.get("label") != [label]:
             st.violation("features", "inherited-feature-type-or-qualifiers-changed", dict(scn, feature=label), [typ], [gtyp, dict(gq)])
     for label in got:
+        if label in optional:
+            continue
         if label not in exp:
             st.violation("features", "feature-overlapping-discarded-region-kept", dict(scn, feature=label, parts=dict(table).get(int(label[1:]), [None, None])[1] if label[1:].isdigit() else None),
                          "dropped", list(got[label][1])[:8])
